@@ -258,6 +258,8 @@ func (r *rewriter) dropUnusedImports() {
 			switch path {
 			case "os", "io/ioutil", "log", "fmt", "sync", "runtime":
 				name = filepath.Base(path)
+			case "runtime/pprof":
+				name = filepath.Base(path)
 			default:
 				continue
 			}
@@ -365,6 +367,14 @@ func (r *rewriter) rewriteSelector(c *astutil.Cursor, n *ast.SelectorExpr) {
 		}
 	}
 	switch r.pkgOf(n.X) {
+	case "runtime/pprof":
+		switch n.Sel.Name {
+		case "StartCPUProfile", "StopCPUProfile":
+			// the profiler's goroutine and signals do not belong in a simulation
+			r.changed = true
+			c.Replace(sim(n.Sel.Name))
+		}
+		return
 	case "runtime":
 		switch n.Sel.Name {
 		case "GOMAXPROCS", "NumCPU":
